@@ -5,17 +5,17 @@ Nothing here imports traits at module level.
 """
 import itertools
 
-ATTR = {"c": "child", "k": "kids", "b": "byname"}
+ATTR = {"c": "child", "k": "kids", "b": "byname", "s": "group"}
 # alternative trait NAMES (flag 'N'): every link name contains the text `_items`, which the
 # listener machinery also uses as the suffix of its container-event traits
-ATTR_ALT = {"c": "sub_items_node", "k": "kid_items", "b": "line_items"}
+ATTR_ALT = {"c": "sub_items_node", "k": "kid_items", "b": "line_items", "s": "set_items_grp"}
 FINAL = {"v": "value", "x": "aux"}
 KNOWN_ITEMS_SIG = "intermediate-items-unreported:first-link-src-handler"
 
 
 def trait_order(A):
     return [(A["c"], "c"), (A["k"], "k"), (A["k"] + "_items", "ki"), (A["b"], "b"), (A["b"] + "_items", "bi"),
-            ("value", "v"), ("aux", "x")]
+            (A["s"], "s"), (A["s"] + "_items", "si"), ("value", "v"), ("aux", "x")]
 
 
 _CLASSES = {}
@@ -32,10 +32,10 @@ def node_class(eq=False, falsy="", renamed=False):
             statement and to the model)."""
     key = (eq, falsy, renamed)
     if key not in _CLASSES:
-        from traits.api import HasTraits, Int, Instance, List, Dict, Str
+        from traits.api import HasTraits, Int, Instance, List, Dict, Set, Str
         A = ATTR_ALT if renamed else ATTR
         body = {"value": Int, "aux": Int, A["c"]: Instance(HasTraits), A["k"]: List(Instance(HasTraits)),
-                A["b"]: Dict(Str, Instance(HasTraits))}
+                A["b"]: Dict(Str, Instance(HasTraits)), A["s"]: Set(Instance(HasTraits))}
         if eq:
             def __eq__(self, other):
                 if not isinstance(other, cls):
@@ -105,7 +105,7 @@ def observe_expr(links, final, A=ATTR):
     for a, notify in links:
         c = "." if notify else ":"
         out += A[a] + c
-        if a in "kb":
+        if a in "kbs":
             out += "items" + c
     return out + FINAL[final]
 
@@ -123,8 +123,11 @@ class Shadow:
         self.child = {0: None}
         self.kids = {0: []}
         self.byname = {0: {}}
+        self.group = {0: []}
         self.next = 1
         self.registered = False
+        self.mat = set()        # (object, attr) whose container has been written or mutated
+        self.stale = set()      # (object, attr) with a replaced container the caller may still hold
 
     def fresh(self, n):
         ids = list(range(self.next, self.next + n))
@@ -132,6 +135,7 @@ class Shadow:
             self.child[i] = None
             self.kids[i] = []
             self.byname[i] = {}
+            self.group[i] = []
         self.next += n
         return ids
 
@@ -140,6 +144,8 @@ class Shadow:
             return [] if self.child[o] is None else [self.child[o]]
         if a == "k":
             return list(self.kids[o])
+        if a == "s":
+            return list(self.group[o])
         return list(self.byname[o].values())
 
     def levels(self, links):
@@ -159,11 +165,34 @@ class Shadow:
             ok = self.registered
             self.registered = False
             return ok
-        a = [int(x) for x in op[1:]]
+        a = [int(x) if str(x).isdigit() else x for x in op[1:]]
         o = a[0]
         if o >= self.next:
             return False
-        if k == "sc":
+        if k in ("xa", "xr"):
+            if k == "xa":
+                self.fresh(1)
+            return True
+        at = {"sk": "k", "kc": "k", "kr": "k", "sb": "b", "bd": "b", "ss": "s"}.get(k)
+        if at:
+            if (o, at) in self.mat:
+                self.stale.add((o, at))
+            self.mat.add((o, at))
+        elif k not in ("sc", "pv", "px"):
+            self.mat.add((o, "b" if k in ("ds", "du", "di", "sd", "dd", "dp", "dq", "dc") else "s" if k[0] == "g" else "k"))
+        if k == "ss":
+            self.group[o] = self.fresh(a[1])
+        elif k == "ga":
+            self.group[o] = self.group[o] + self.fresh(1)
+        elif k == "gu":
+            self.group[o] = self.group[o] + self.fresh(a[1])
+        elif k in ("gr", "gx"):
+            if a[1] >= len(self.group[o]):
+                return False
+            self.group[o] = self.group[o][:a[1]] + self.fresh(1 if k == "gx" else 0) + self.group[o][a[1] + 1:]
+        elif k == "gc":
+            self.group[o] = []
+        elif k == "sc":
             self.child[o] = self.fresh(1)[0] if a[1] else None
         elif k == "sk":
             self.kids[o] = self.fresh(a[1])
@@ -230,6 +259,27 @@ def _op_on(rng, sh, o, a, cap, eq=False):
     """A random valid mutation of attribute a of object o.  With eq (value-equality nodes)
     replacements of existing items / values are favoured: they are done with equal clones."""
     room = sh.next < cap
+    if a != "c" and (o, a) in sh.stale and rng.random() < 0.3:
+        # the container this attribute held before its last reassignment, still held by the caller
+        return ["xa" if (room and rng.random() < 0.75) else "xr", o, a]
+    if a == "s":
+        n = len(sh.group[o])
+        r = rng.random()
+        if not room:
+            r = 0.5 + r / 2
+        if r < 0.18:
+            return ["ss", o, rng.choice([0, 1, 1, 2, 3])]
+        if r < 0.38:
+            return ["ga", o]
+        if r < 0.48:
+            return ["gu", o, rng.choice([0, 1, 2, 2])]
+        if r < 0.58 and n:
+            return ["gx", o, rng.randrange(n)]
+        if r < 0.85 and n:
+            return ["gr", o, rng.randrange(n)]
+        if r < 0.93:
+            return ["gc", o]
+        return ["ss", o, 0]
     if a == "c":
         return ["sc", o, 1 if (room and rng.random() < 0.75) else 0]
     if a == "k":
@@ -307,7 +357,7 @@ def _op_on(rng, sh, o, a, cap, eq=False):
 
 def random_name(rng):
     n = rng.choice([1, 1, 2, 2, 2, 3])
-    links = [(rng.choice("ckb"), rng.random() < 0.6) for _ in range(n)]
+    links = [(rng.choice("ckbckbs"), rng.random() < 0.6) for _ in range(n)]
     final = "v" if rng.random() < 0.85 else "x"
     arity = rng.choice([4, 4, 4, 4, 4, 4, 3, 3, 0, 0, 0, 1, 2])
     if arity in (1, 2):
@@ -378,10 +428,13 @@ def random_case(rng, name=None, cap=26):
     if rng.random() < 0.2:
         mode += "N"
     eq = "E" in mode
+    if eq:
+        # value-equality nodes are unhashable: no Set links
+        links = [("k" if a == "s" else a, nt) for a, nt in links]
     if ("D" in mode or "K" in mode) and name is None:
         # deferred registrations matter for container first links
         if rng.random() < 0.7:
-            links = [(rng.choice("kb"), links[0][1])] + links[1:]
+            links = [(rng.choice("kbk" if eq else "kbs"), links[0][1])] + links[1:]
         if arity in (1, 2):
             links = [(a, False) for a, _ in links]
     sh = Shadow()
@@ -403,7 +456,11 @@ def random_case(rng, name=None, cap=26):
                 k = max(ks) if rng.random() < 0.5 else rng.choice(ks)
                 op = _op_on(rng, sh, rng.choice(lv[k]), links[k][0], cap, eq)
             elif r < 0.80:
-                op = _op_on(rng, sh, rng.randrange(sh.next), rng.choice("ckb"), cap, eq)
+                if sh.stale and rng.random() < 0.3:
+                    o_, a_ = rng.choice(sorted(sh.stale))
+                    op = _op_on(rng, sh, o_, a_, cap, eq)
+                else:
+                    op = _op_on(rng, sh, rng.randrange(sh.next), rng.choice("ckb" if eq else "ckbs"), cap, eq)
             elif r < 0.86:
                 op = [rng.choice(["pv", "px"]), rng.randrange(sh.next)]
             elif r < 0.86 + p_toggle:
@@ -416,7 +473,8 @@ def random_case(rng, name=None, cap=26):
                                  ["sl", rng.randrange(sh.next), 2, 1, 1], ["dd", rng.randrange(sh.next), 9],
                                  ["in", rng.randrange(sh.next), 9], ["ap", sh.next + 3], ["pv", sh.next],
                                  ["si", rng.randrange(sh.next), 8], ["dp", rng.randrange(sh.next), 9],
-                                 ["du", sh.next + 2, 1, 2]])
+                                 ["du", sh.next + 2, 1, 2], ["gr", rng.randrange(sh.next), 6],
+                                 ["xa", sh.next + 1, "k"], ["gx", rng.randrange(sh.next), 5]])
         sh.apply(op)
         ops.append(op)
     return show_name(arity, links, final, mode) + "|" + show_ops(ops)
@@ -443,6 +501,8 @@ EXH = [
     ("Z 4 k: v", "sk 0 2"),
     ("N 4 b. v", "sb 0 0 1"),
     ("N 4 c. k. v", "sc 0 1;sk 1 1"),
+    ("4 s. v", "ss 0 2"),
+    ("0 c: s: v", "sc 0 1;ss 1 1"),
 ]
 
 
@@ -462,11 +522,17 @@ def _alphabet(name):
                        ["rv", o], ["ro", o], ["kp", o, 1, 1]]
                 if not name.startswith("E"):
                     al += [["kc", o, 1, 1], ["kr", o]]
+                if o == 0 or name[0] in "4D":
+                    al += [["xa", o, "k"]]
+            elif a == "s":
+                al += [["ss", o, 1], ["ga", o], ["gr", o, 0], ["gx", o, 0], ["gc", o], ["xa", o, "s"]]
             else:
                 al += [["sb", o, 1], ["ds", o, 0], ["ds", o, 2], ["du", o, 0, 2], ["di", o, 3, 0, 1], ["sd", o, 4],
                        ["dd", o, 0], ["dq", o], ["dc", o]]
                 if not name.startswith("E"):
                     al += [["bd", o, 1]]
+                if o == 0:
+                    al += [["xa", o, "b"]]
     return al
 
 
@@ -524,6 +590,9 @@ class World:
         self.legacy = []           # recorded legacy calls (canonical or raw)
         self.observed = []
         self.current = None        # (object id, trait short) being changed by the running op
+        self.stale = {}            # (object id, attr) -> the container the link held before its last reassignment
+        self.gord = {}             # object id -> members of its `group` set in insertion order (the model's order)
+        self.nkey = 0
         self.late = None           # ids present in the first container at a deferred rg (F87, fixed in
         #                            /repo 0c9dae1: a hit with KNOWN_LATE_SIG is a violation again)
         w = self
@@ -590,7 +659,7 @@ class World:
         n = type(ev).__name__
         if n == "TraitChangeEvent":
             return (self.idof.get(id(ev.object), -1), self.short.get(ev.name, ev.name))
-        if n in ("ListChangeEvent", "DictChangeEvent"):
+        if n in ("ListChangeEvent", "DictChangeEvent", "SetChangeEvent"):
             owner = ev.object.object()
             return (self.idof.get(id(owner), -1), self.short.get(ev.object.name + "_items", "?"))
         return (-1, n)
@@ -603,6 +672,8 @@ class World:
             return [] if v is None else [v]
         if a == "k":
             return list(d.get(self.A["k"], ()))
+        if a == "s":
+            return list(d.get(self.A["s"], ()))
         return list(d.get(self.A["b"], {}).values())
 
     def levels(self):
@@ -623,7 +694,7 @@ class World:
             if self.idof[id(o)] in seen:
                 continue
             seen.add(self.idof[id(o)])
-            for a in "ckb":
+            for a in "ckbs":
                 todo.extend(self.targets(a, o))
         return seen
 
@@ -692,11 +763,72 @@ class World:
             self.registered = False
             self.late = None
             return (-1, "rm", False)
-        a = [int(x) for x in op[1:]]
+        a = [int(x) if str(x).isdigit() else x for x in op[1:]]
         i = a[0]
         if i >= len(self.pool):
             return None
         o = self.pool[i]
+        at = {"sk": "k", "kc": "k", "kr": "k", "sb": "b", "bd": "b", "ss": "s"}.get(k)
+        if at and not (self.eq and k in ("kc", "kr", "bd")):
+            # the caller keeps the container the link held before it is reassigned
+            held = o.__dict__.get(self.A[at])
+            if held is not None:
+                self.stale[(i, at)] = held
+        if k in ("xa", "xr"):
+            # mutation of a DETACHED container: no part of the graph any more, nothing may be reported
+            c = self.stale.get((i, a[1]))
+            self.current = (i, a[1] + "i")
+            if k == "xa":
+                new = self.new()
+                if c is not None:
+                    if a[1] == "k":
+                        c.append(new)
+                    elif a[1] == "b":
+                        self.nkey += 1
+                        c["z%d" % self.nkey] = new
+                    else:
+                        c.add(new)
+            elif c:
+                if a[1] == "k":
+                    del c[0]
+                elif a[1] == "b":
+                    c.popitem()
+                else:
+                    c.pop()
+            return (i, a[1] + "i", False)
+        if k == "ss":
+            old = list(self.gord.get(i, ()))
+            self.current = (i, "s")
+            new = self.fresh(a[1])
+            setattr(o, self.A["s"], set(new))
+            self.gord[i] = new
+            return (i, "s", bool(old or new))
+        if k in ("ga", "gu", "gr", "gx", "gc"):
+            self.current = (i, "si")
+            cur = list(self.gord.get(i, ()))
+            g = getattr(o, self.A["s"])
+            if k in ("ga", "gu"):
+                new = self.fresh(1 if k == "ga" else a[1])
+                if k == "ga":
+                    g.add(new[0])
+                else:
+                    g |= set(new)
+                self.gord[i] = cur + new
+                return (i, "si", bool(new))
+            if k == "gc":
+                g.clear()
+                self.gord[i] = []
+                return (i, "si", bool(cur))
+            if a[1] >= len(cur):
+                return None
+            if k == "gr":
+                g.remove(cur[a[1]])
+                new = []
+            else:
+                new = self.fresh(1)
+                g ^= {cur[a[1]], new[0]}     # ONE event: removed = {member}, added = {fresh}
+            self.gord[i] = cur[:a[1]] + new + cur[a[1] + 1:]
+            return (i, "si", True)
         if k == "sc":
             old = o.__dict__.get(self.A["c"])
             self.current = (i, "c")
@@ -913,7 +1045,7 @@ def _run(arity, links, final, ops, mode=""):
             else:
                 if sorted(L) != sorted(exp):
                     sig = "%s:legacy-%s:%s" % (kind, "missing" if len(L) < len(exp) else "spurious", tshort)
-                    if (kind == "intermediate" and not L and tshort in ("ki", "bi") and arity in (3, 4)
+                    if (kind == "intermediate" and not L and tshort in ("ki", "bi", "si") and arity in (3, 4)
                             and links[0][1] and tshort == links[0][0] + "i" and oid == 0
                             and not any(oid in before[k] for k in range(1, n))):
                         sig = KNOWN_ITEMS_SIG
